@@ -73,6 +73,27 @@ def execute(ctx, case):
     C(np.allclose(ds.fnr(th), ref_fnr, rtol=1e-7, atol=1e-12) and np.allclose(ds.fpr(th), ref_fpr, rtol=1e-6, atol=1e-9), "analytic rates differ from the normal-distribution reference", "data-rates",
       thresholds=th, fnr=ds.fnr(th), fpr=ds.fpr(th))
     C(np.all(np.diff(ds.fnr(th)) >= 0) and np.all(np.diff(ds.fpr(th)) <= 0), "fnr not increasing or fpr not decreasing in the threshold", "data-monotone")
+    # the same analytic functions at thresholds handed over in other containers / narrower float types: the values are what counts
+    for form in ("float32", "float16", "list", "np32scalar", "intarray"):
+        if form == "float32":
+            tq = th.astype(np.float32)
+        elif form == "float16":
+            tq = th.astype(np.float16)
+        elif form == "list":
+            tq = th.tolist()
+        elif form == "np32scalar":
+            tq = np.float32(th[len(th) // 2])
+        else:
+            tq = np.round(th).astype(np.int64)
+        vals = np.atleast_1d(np.asarray(tq, dtype=float)).tolist()
+        rf = np.array([Np.cdf(v) for v in vals])
+        rp = np.array([1.0 - Nn.cdf(v) for v in vals])
+        gf, gp = np.atleast_1d(np.asarray(ds.fnr(tq), dtype=float)), np.atleast_1d(np.asarray(ds.fpr(tq), dtype=float))
+        C(np.allclose(gf, rf, rtol=1e-7, atol=1e-12) and np.allclose(gp, rp, rtol=1e-6, atol=1e-9), "analytic rates differ from the normal-distribution reference for thresholds given as " + form,
+          "data-rates-form", thresholds=np.asarray(tq), fnr=gf, fpr=gp, form=form)
+        okf = (rf > 1e-9) & (rf < 1 - 1e-9)
+        back = np.atleast_1d(np.asarray(ds.threshold_at_fnr(ds.fnr(tq)), dtype=float))
+        C(np.allclose(back[okf], np.asarray(vals)[okf], rtol=1e-6, atol=1e-6), "threshold_at_fnr(fnr(t)) != t for thresholds given as " + form, "data-thr-inverse-form", form=form, thresholds=np.asarray(tq), back=back)
     f = ds.fnr(th)
     ok = (f > 1e-9) & (f < 1 - 1e-9)
     C(np.allclose(np.asarray(ds.threshold_at_fnr(f))[ok], th[ok], rtol=1e-6, atol=1e-6), "threshold_at_fnr(fnr(t)) != t", "data-thr-inverse")
